@@ -157,6 +157,8 @@ def gen_typed_grammar(rng, case_index, slice_):
 
     collide_order = rng.sample(COLLIDING, len(COLLIDING))  # a per-case linearisation => acyclic chains
 
+    no_base = set()   # classes other rules must not derive from (conflict slice)
+
     def new_head():
         """declare a class (with its chain) and return its name"""
         if slice_ == 'collide' and rng.random() < 0.7:
@@ -185,7 +187,7 @@ def gen_typed_grammar(rng, case_index, slice_):
         if r < 0.45:
             spec.declare([head])
         else:
-            existing = [b for b in spec.chain if b != head]
+            existing = [b for b in spec.chain if b != head and b not in no_base]
             if existing and rng.random() < 0.5:
                 b = rng.choice(existing)
             else:
@@ -247,12 +249,12 @@ def gen_typed_grammar(rng, case_index, slice_):
             return L.Group(L.Choice((L.Call(callees[0]), L.Call(callees[-1]))))
         return L.Opt(L.Group(L.Seq((L.Tok('='), base))))
 
-    def named_seq(callees, meta, lead=None):
-        k = rng.choice([1, 2, 2, 3, 4])
+    def named_seq(callees, meta, lead=None, names_=None):
+        k = len(names_) if names_ else rng.choice([1, 2, 2, 3, 4])
         items = []
         if lead:
             items.append(L.Tok(lead))
-        nms = attr_names(k)
+        nms = list(names_) if names_ else attr_names(k)
         if hostile_name and rng.random() < 0.6:
             nms[rng.randrange(len(nms))] = hostile_name
             meta['hostile_used'] = True
@@ -316,10 +318,40 @@ def gen_typed_grammar(rng, case_index, slice_):
     meta = {'slice': slice_, 'hostile_kind': hostile_kind, 'hostile_name': hostile_name}
     shared_head = None
     leaf2 = rng.random() < 0.5
+    conflict = {}
+    if slice_ == 'conflict':
+        # ONE class declared by two rules with DIFFERENT chains of bases and different named elements:
+        # `start::P::Q = '+' x:.. ;  rK::P = '-' y:.. ;`  (which chain the class gets is not documented;
+        # what is fixed is that a P built by either rule has exactly that rule's named elements)
+        head = fresh(WORDS)
+        q = fresh(BASEWORDS)
+        chain_a = [q] + ([fresh(BASEWORDS)] if rng.random() < 0.3 else [])
+        chain_b = [] if rng.random() < 0.6 else [fresh(BASEWORDS)]
+        if rng.random() < 0.5:
+            chain_a, chain_b = chain_b, chain_a
+        j = rng.randrange(1, nr - 1) if nr > 2 else 1
+        pool = rng.sample(ATTRS, 6)
+        ka = rng.choice([1, 2, 3])
+        conflict = {0: ('::'.join([head, *chain_a]), pool[:ka], '+'),
+                    j: ('::'.join([head, *chain_b]), pool[ka:ka + rng.choice([1, 2, 3])], '-')}
+        for ch in (chain_a, chain_b):
+            for x, b_ in enumerate(ch):
+                spec.chain.setdefault(b_, tuple(ch[x + 1:]))
+        spec.chain.setdefault(head, tuple(chain_a))
+        meta['conflict_heads'] = [head]
+        no_base.add(head)
+        meta['extra_starts'] = [names[j]]
     for i, n in enumerate(names):
         callees = names[i + 1:]
         if nr >= 4 and i == nr - 2 and leaf2:
             callees = []
+        if i in conflict:
+            cspec, cnames, lead = conflict[i]
+            rmeta = {}
+            b = named_seq(callees or [], rmeta, lead=lead, names_=cnames)
+            meta.update(rmeta)
+            rules.append(L.Rule(n, b, params=(cspec,)))
+            continue
         rmeta = {}
         params = ()
         r = rng.random()
@@ -482,10 +514,12 @@ class Judge:
     """compares one live model value with the tagged tree; collects (sig, message) findings and
     evidence about what was seen"""
 
-    def __init__(self, route, stale_names=(), module=None, hostile=None, own_names=None, shared_heads=()):
+    def __init__(self, route, stale_names=(), module=None, hostile=None, own_names=None, shared_heads=(),
+                 conflict_heads=()):
         self.route = route            # 'synth' | 'module'
         self.own_names = own_names or {}   # rule name -> names of the elements the rule itself defines
         self.shared_heads = set(shared_heads)   # classes declared by more than one rule
+        self.conflict_heads = set(conflict_heads)   # ... with different chains of bases (MRO not judged)
         self.stale = set(stale_names)  # class names declared with another chain earlier in this process
         self.module = module
         self.hostile = hostile
@@ -527,7 +561,15 @@ class Judge:
             if self.route == 'module' and self.module is not None and getattr(self.module, names[0], None) is not cls:
                 self.bad('module:class-not-from-module',
                          f'{path}: class {names[0]} is {cls.__module__}.{cls.__qualname__}, not the generated module\'s')
-            if not ok:
+            conflicted = names[0] in self.conflict_heads
+            if conflicted:
+                # the class is declared with two different chains in this grammar: which one it gets is
+                # not fixed by the documentation (first rule reduced / last rule declared): not judged
+                self.bump('conflict_nodes')
+                self.bump('conflict_mro:' + ('has-this-rules-chain' if ok else 'has-the-other-chain'))
+            if not ok and conflicted:
+                self.bump('flagged:conflicting-chains-mro-not-judged')
+            elif not ok:
                 if self.route == 'synth' and any(n in self.stale for n in names):
                     self.bad('bases:stale-synth-registry',
                              f'{path}: annotated {tv.spec}, class {names[0]} has MRO {mro[:len(names) + 2]}: a class '
@@ -568,6 +610,8 @@ class Judge:
             elif isinstance(inner, dict):
                 want = set(inner)
                 self.bump('nodes_with_names')
+                if conflicted:
+                    self.bump(f'conflict_attrs_judged:{self.route}')
                 clash = want & set(RESERVED_NODE_ATTRS)
                 have |= clash        # fields every node has: judged by their value below
                 alias = {}
